@@ -112,7 +112,9 @@ lib_enter(long af)
 {
 
 	lib_depth_saved = w_in_lib;
-	errno = 0;
+	/* errno holds junk from earlier, unrelated work (never 0): a reported failure must set its own
+	 * (events.h: EEXIST / ENOENT; the allocator sets ENOMEM), a success may not depend on it */
+	errno = EDOM;
 	w_fail_hit = 0;
 	w_fail_persist = (af < 0);
 	w_fail_countdown = (af < 0) ? -af : af;
@@ -222,6 +224,10 @@ exec_op(struct op * o)
 		h = events_timer_register(callback, g, &tv);
 		e = errno;
 		lib_leave();
+		/* events.h: "${timeo} in the future" is a value; the caller's object is its own again as
+		 * soon as the call returns (events_timer_reset restores the timer's "initial value", not
+		 * whatever the caller's variable holds by then) */
+		tv.tv_sec = 86400 * 365 + 12345; tv.tv_usec = 999999;
 		if (h == NULL)
 			w_emit("FT %ld %ld %s", o->a[1], o->a[2], errclass(e));
 		else {
